@@ -7,6 +7,12 @@ CHECKS = {
  "C01": ("E1 symx", E1 + "; obligation: string equality of two listings", "§6 C01"),
  "C02": ("E1 symx + REF-DECODER + REF-ISO", E1 + "; obligation: independent decoder is a left inverse up to isomorphism; near-miss collision queries", "§6 C02"),
  "C04": ("E1 symx", E1 + "; obligation: canonical labelled graphs of two listings equal", "§6 C04"),
+ "C03": ("E1 symx (token lift) + REF-ISO", E1 + "; numerals lifted to symbols through the real ANTLR parse tree; obligations: parsed graph isomorphic to the molecule, fixed point", "§6 C03"),
+ "C05": ("E1 symx + REF-GRAMMAR/LAYOUT/HILL + E3 atnre", E1 + "; emitted segment string judged by an independent grammar/layout validator; validator tied to the parser automaton by z3 regex inclusion", "§6 C05"),
+ "C06": ("E1 symx + REF-V3000/V2000", E1 + "; two renderings differing in symbolic non-identity data through the real reader and pipeline; obligation: strings equal", "§6 C06"),
+ "C09": ("E1 symx + E2 CrossHair + REF-V3000-READER", E1 + "; graph_to_molfile -> reader round trip with symbolic attributes; CrossHair (z3) on the wrap/splice string kernels with a symbolic line", "§6 C09"),
+ "C10": ("E3 atnre + E1 symx (token lift) + REF-DECODER", "z3 regular-expression language inclusion (both directions, unbounded length) between the generated parser's ATN (state elimination) and the EBNF transcription; " + E1 + " with all numerals symbolic", "§6 C10"),
+ "C11": ("E1 symx (token lift) + REF-GRAMMAR", E1 + "; solver-chosen respelling of the canonical string through the real parser; obligations: same normal form, idempotent", "§6 C11"),
  "C07": ("E1 symx + REF-V3000", E1 + "; REF-V3000 renderings with symbolic fields through the real reader; obligation: graph equals the stated molecule attribute for attribute", "§6 C07"),
  "C08": ("E1 symx + REF-V2000 + REF-V3000", E1 + "; V2000 and V3000 renderings of one abstract molecule through the real reader; obligations: both graphs equal the molecule, strings equal", "§6 C08"),
  "C12": ("E1 symx", E1 + "; obligations: attribute terms carried, input snapshots unchanged, repeat calls equal", "§6 C12"),
@@ -18,6 +24,12 @@ TEXT = {
  "C01": "Bounded model checking by symbolic execution: every labelled graph up to the stated size, every label placement, all integer label values (decided by z3, not sampled), every generator relisting. Right level because the property quantifies over all molecules and relabelings and the interesting cases (partially labelled orbits) are rare.",
  "C02": "Bounded: for every molecule of the strata and all label values the emitted string decodes (independent reader) to a graph provably isomorphic to the input, hence no two non-isomorphic molecules of the strata share a string; plus direct collision queries on near-miss pairs.",
  "C04": "Bounded: for every molecule of the strata, all label values and every generator relisting the two canonical graphs are equal node for node and edge for edge.",
+ "C03": "Bounded: for every molecule of the strata and all label values the real parser reconstructs an isomorphic molecule from the emitted string and the pipeline reproduces the string.",
+ "C05": "Bounded: every emitted string of the strata (graph level, reader level with explicit zeros, all 1-/2-element formulas over the 118 symbols) passes an independent grammar+layout validator with all values provably >= 1; the validator's grammar equals the parser's automaton (unbounded length).",
+ "C06": "Bounded: for every molecule of the strata, all values of charges / bond types / file indices / atom-atom mapping and each listed kind of non-identity change, both renderings give the same string.",
+ "C09": "L1 by CrossHair for every line up to the stated length; L2/L3 bounded by symx for all attribute values in the format's ranges; exact-length sweep as solver-enumerated integration tests.",
+ "C10": "Syntax: language equality with no length bound (solver verdict, second solver agrees). Semantics: bounded skeletons with every numeral symbolic. One-token edits: solver-seeded differential testing, stated as such.",
+ "C11": "Bounded: for every molecule of the strata, all attribute values and each listed respelling kind, normalisation gives the canonical string and is idempotent.",
  "C07": "Bounded: every rendering choice of the stated families (property subsets/orders, extra keyword, index assignment, file order, D/T, star atoms, blank runs, continuation column) with all numeric field values symbolic; the reader's graph equals the stated molecule.",
  "C08": "Bounded: every encoding choice (charge code / property lines / stale codes / groupings / group orders / unrelated lines / atom lists / D,T with ISO) with all property-line values symbolic through the fixed-width fields; V2000 and V3000 graphs equal the abstract molecule and the strings agree.",
  "C12": "Bounded: for every molecule of the strata with symbolic charges/bond types, canonicalization is a bijective renaming carrying every attribute term; inputs are unchanged; call histories of length <= 3 repeat.",
@@ -52,6 +64,8 @@ def build(claimed, na_extra):
                   "baseline_off_cmd": BASE_OFF, "source_commits": [], "add_only": True},
         "engines": [
             {"name": "symx", "path": "/verif/symx", "serves_properties": [p for p in claimed], "kind_free_text": "dynamic symbolic execution (concolic DFS) of the real Python code on z3-backed SymInt/SymBool proxies"},
+            {"name": "atnre", "path": "/verif/atnre", "serves_properties": ["C10", "C05"], "kind_free_text": "ANTLR ATN -> z3 regular expression by state elimination; language inclusion by z3's regex theory, cvc5 second opinion"},
+            {"name": "kernels", "path": "/verif/kernels", "serves_properties": ["C09"], "kind_free_text": "CrossHair (z3) on string kernels of the molfile writer/reader with a symbolic str"},
         ],
         "checks": checks,
         "not_applicable": NA + na_extra,
@@ -61,7 +75,7 @@ def build(claimed, na_extra):
 if __name__ == "__main__":
     import sys
     claimed = [p for p in sorted(CHECKS)]
-    pending = [p for p in ["C03", "C05", "C06", "C09", "C10", "C11"] if p not in CHECKS]
+    pending = []
     na_extra = [{"property_id": p, "reason": "check under construction in this round; not yet claimed"} for p in pending]
     json.dump(build(claimed, na_extra), open("/verif/MANIFEST.json", "w"), indent=1)
     print("claimed", claimed, "pending", pending)
